@@ -775,3 +775,18 @@ mod tests {
     assert_eq!("123.123", dec_to_string(&qr));
   }
 }
+
+#[cfg(dmntk_verif)]
+extern "C" {
+  fn decQuadToBCD(arg1: *const DecQuad, arg2: *mut i32, arg3: *mut c_uchar) -> i32;
+}
+
+/// Verification hook: raw parts `(finite, negative, 34 coefficient digits, exponent)`
+/// of a [DecQuad] read directly from its encoding, not through any string conversion.
+#[cfg(dmntk_verif)]
+pub fn dec_verif_parts(q: &DecQuad) -> (bool, bool, Vec<u8>, i32) {
+  let mut exponent: i32 = 0;
+  let mut bcd = [0_u8; 34];
+  let sign = unsafe { decQuadToBCD(q, &mut exponent, bcd.as_mut_ptr()) };
+  (dec_is_finite(q), sign != 0, bcd.to_vec(), exponent)
+}
